@@ -11,6 +11,12 @@ structure PktInfo where
   gen : Int
   pn : Int
   bit : Int
+  /-- produced by the real packer (header protected): packet number length, destination connection ID
+      length and total length of the packet -/
+  packed : Bool := false
+  pnLen : Nat := 4
+  cidLen : Nat := 0
+  dataLen : Nat := 0
 deriving Repr
 
 /-- ghost of one endpoint -/
@@ -25,6 +31,7 @@ structure EpGhost where
   prevDropped : Bool := true          -- no previous key (phase 0) or dropped
   monotoneSeal : Bool := true         -- packet numbers handed to Seal were strictly increasing
   lastSealed : Int := -1
+  highRcvd : Int := 0                 -- largest packet number the implementation reported as opened
   ackWithinSent : Bool := true        -- every ACK so far was for a packet number already handed to Seal
                                       -- (sentPacketHandler.ReceivedAck rejects "ACK for an unsent packet" first)
 deriving Repr
